@@ -9,6 +9,10 @@ ids = [json.loads(l)['id'] for l in (V / 'properties.jsonl').read_text().splitli
 TECH = 'contract-based deductive verification: own VC generator (pyvc) over the real .py/.pyx source, sidecar contracts, z3/cvc5'
 
 CLAIMED = {
+	'C16': dict(
+		text='dist_cmd is verified in all query/reference source combinations (signature file, files, database, square; symbolic flags) against a provenance contract: the row and column labels handed to the writer are the ids of exactly the signature collections the matrix was computed from (files and their labels are derived together; file signatures keep file order), non-square -> full matrix of queries x references, square -> pairwise of the queries. dump_dmat_csv is verified against a ghost CSV document: header = corner + column ids, row i = row id + 4-decimal rendering of each cell of row i, ValueError when the row count differs (strict zip). Bounded companion: the real command on the bundled genomes against per-pair distances.',
+		note='Trusted: click, csv.writer.writerow, format(), C05/C08/C12/C13 contracts in provenance form.',
+		design='3/C16'),
 	'C08': dict(
 		text='Labels: get_file_id / strip_seq_file_ext / strip_extensions are verified in the SMT theory of strings for all 14 (FASTA extension x gzip) shapes (cvc5). Order and context-freeness: query() (four input forms), query_parse(), get_sequence_files() (both channels) and SequenceFile.from_paths are verified against "one item per query, in order, item i = RI(db, params, ROW(db, query i), input i)" where ROW and RI are functions of the single query only, so no other query, batch size, chunk size or progress object can occur in a row. The end-to-end clause across channels/compression/cores is exercised by a bounded run of the real CLI against single-genome runs (labelled bounded).',
 		note='Trusted: click, pathlib/os.path as uninterpreted functions, progress helpers, the row-form contracts of C05/C13 and the functional contract of get_result_item (C03/C09/C10), exporter row order (C11).',
